@@ -13,7 +13,6 @@ func init() {
 
 	notApplicable["C02"] = "End-to-end acceptance of combinator-built paths by every router depends on concrete MACs, interface numbers and topologies (runtime values); no shape of the code implies it. Its structural preconditions are claimed under C01/C04/C22/C23."
 	notApplicable["C03"] = "Round-trip delivery over reversed paths is an arithmetic property of Reverse/IncPath over all path shapes plus C02; nothing structural beyond what C10/C22 check."
-	notApplicable["C19"] = "Quantifies over 2^26 meta headers and checks arithmetic results (indices, double reversal): enumeration of runtime values, i.e. exploration/model checking, not static analysis."
 	notApplicable["C29"] = "Completeness of a graph search (every valid combination is returned) is a semantic property of an algorithm over arbitrary inputs; no necessary structural condition short of re-implementing it."
 	notApplicable["C41"] = "Byte-exact reassembly under loss/duplication/reordering is a behavioural property of a stateful protocol; static rules could only check slice bounds, which is not the property."
 	notApplicable["C43"] = "Evaluation and print/parse equivalence of expression trees: candidate rules (shape of Eval loops, format strings vs ANTLR grammar) would fire on behaviour-preserving rewrites; declined as brittle proxies."
